@@ -10,6 +10,7 @@ forms, agreement with inet_pton."""
 from ..facts import AnalysisBroken
 from ..model import sx, walk, is_var, const_of
 from .. import numeric, cursor
+from ..rules import event_exprs as _event_exprs
 
 EXPLANATION = (
     'Memory clause of C13, decided by abstract interpretation of the address code in modules/iauth_misc.c '
@@ -246,6 +247,145 @@ def hex_table(P, R, rule='C13.TAB.3'):
     R.ob(rule, not bad and len(cls) == 1, ci, 'every hexadecimal digit carries its value in the character table, with one common class%s' % ((' (wrong: %s)' % ', '.join(bad)) if bad else ''), key='hex-table')
 
 
+def helper_cursor(P, R, fns, rule='C13.CUR.2'):
+    """The text handed to a scanning helper is a pointer into the input: on every path to the call the local was
+    assigned (from the input), or - the one reasoned premise - the branch was entered knowing that the first
+    separator found by strchr lies before the first one of the helper's kind (`dot == NULL || dot > colon`), which
+    implies that the assignment behind that separator has run.  Dropping the premise leaves a NULL start."""
+    keys = {f.key for f in fns}
+    n = 0
+    for f in fns:
+        for s in f.calls():
+            g = P.direct_target(f, s.ev.get('callee')) if s.ev.get('callee') else None
+            if g is None or g.key not in keys or g.key == f.key or not s.ev['args']:
+                continue
+            a0 = s.ev['args'][0]
+            if not (is_var(a0) and a0.get('sc') == 'local' and a0.get('t', '').endswith('*')):
+                continue
+            v = a0['name']
+            finders = {}
+            for t in f.sites():
+                ev = t.ev
+                val = ev.get('init') if ev['k'] == 'decl' else ev.get('rhs') if ev['k'] == 'store' and ev.get('op') == '=' else None
+                name = ev.get('var') if ev['k'] == 'decl' else (ev['lhs']['name'] if ev['k'] == 'store' and is_var(ev.get('lhs')) else None)
+                if name and isinstance(val, dict) and val.get('k') == 'callref' and val.get('callee') in ('strchr', 'memchr', 'strrchr'):
+                    finders[name] = val
+
+            def on_event(st, t):
+                ev = t.ev
+                if ev['k'] == 'decl' and ev.get('var') == v:
+                    c = const_of(ev.get('init')) if ev.get('init') is not None else 0
+                    return (ev.get('init') is not None and c != 0, st[1])
+                if ev['k'] == 'store' and is_var(ev.get('lhs'), v) and ev.get('op') == '=':
+                    return (const_of(ev.get('rhs')) != 0, st[1])
+                return st
+
+            def on_edge(st, e):
+                r = e.rel()
+                if not r or st[1]:
+                    return st
+                l, op, rr = r
+                if is_var(l) and l['name'] in finders and const_of(rr) == 0 and op == '==':
+                    return (st[0], True)
+                if is_var(l) and is_var(rr) and l['name'] in finders and rr['name'] in finders and op in ('>', '<'):
+                    return (st[0], True)
+                return st
+            before, _, _, _ = f.forward((False, False), on_event, on_edge)
+            sts = before.get(s.key, set())
+            n += 1
+            bad = [st for st in sts if not (st[0] or st[1])]
+            R.ob(rule, bool(sts) and not bad, s, 'the start handed to %s is assigned on every path to the call (or the branch is entered under the separator-order premise)' % g.name,
+                 key='helper-start:%s' % g.name)
+    return n
+
+def _ret0_block(f, bid):
+    """the block only returns the constant 0"""
+    ss = f.block_sites(bid)
+    return bool(ss) and ss[-1].ev['k'] == 'ret' and const_of(ss[-1].ev.get('val')) == 0 and all(t.ev['k'] in ('ret',) for t in ss)
+
+
+def full_range(P, R, fns, rule='C13.TAB.4', parts=('copy', 'prefix', 'residue')):
+    """Necessary conditions of "every valid text is accepted / every prefix bit is compared", read off the same
+    numeric analysis: an inferred range is an over-approximation, so when its upper end falls short of what the format
+    needs, the full-length case is provably refused or skipped.
+      copy     the embedded dotted quad can land in the last two groups: the block copy's upper end is the array's extent;
+      prefix   a parsed prefix length is refused exactly above the width of the address the function fills (8 * its size);
+      residue  the mask test's partial-group shift reaches 15, i.e. a residue of one bit is still compared."""
+    n = 0
+    for f in fns:
+        an = None
+        # -- copy ------------------------------------------------------------------------------------
+        if 'copy' in parts:
+            for s in f.calls('memcpy'):
+                a0 = s.ev['args'][0]
+                if not any(x.get('k') == 'mem' and x.get('field') == 'in6' for x in walk(a0)):
+                    continue
+                an = an or numeric.Analysis(f)
+                for o in numeric.obligations(an):
+                    if o['kind'] == 'blockcopy' and hasattr(o['where'], 'key') and o['where'].key == s.key:
+                        n += 1
+                        R.ob(rule, o['hi'] is not None and o['hi'] >= o['extent'], s,
+                             'the embedded dotted quad may fill the last two groups: the copy reaches byte %s of %s' % (o['hi'], o['extent']), key='reach:copy:%s' % f.name)
+        # -- prefix ----------------------------------------------------------------------------------
+        if 'prefix' in parts:
+            nulltested = set()
+            for b in f.blocks:
+                c = f.term_cond(b)
+                if c is None:
+                    continue
+                for x in walk(c):
+                    pass
+                from ..model import rel as _rel
+                r = _rel(c, True)
+                if r and is_var(r[0]) and const_of(r[2]) == 0 and r[0].get('sc') == 'param' and r[0].get('t', '').endswith('*'):
+                    nulltested.add(r[0]['name'])
+            outs = [p for p in f.param_info if p.get('t', '').endswith('*') and not p['t'].startswith('const') and p['name'] not in nulltested and 'char' not in p['t']]
+            pfx = [p['name'] for p in f.param_info if p['name'] in nulltested and p.get('t', '').replace(' ', '') in ('unsignedint*', 'unsigned*')]
+            psz = None
+            for s in f.sites():
+                for ex in _event_exprs(s.ev):
+                    for x in walk(ex):
+                        if x.get('k') == 'var' and outs and x.get('name') == outs[0]['name'] and x.get('psz'):
+                            psz = x['psz']
+            if pfx and psz:
+                width = 8 * psz
+                for s in f.stores():
+                    ev = s.ev
+                    lhs = ev.get('lhs') or {}
+                    if not (ev['k'] == 'store' and ev.get('op') == '=' and lhs.get('k') == 'un' and lhs.get('op') == '*' and is_var(lhs.get('e')) and lhs['e']['name'] in pfx and is_var(ev.get('rhs'))):
+                        continue
+                    v = ev['rhs']['name']
+                    writers = {t.bid for t in f.stores() if t.ev['k'] == 'store' and is_var(t.ev.get('lhs'), v)}
+                    for b in f.blocks:
+                        c = f.term_cond(b)
+                        if c is None:
+                            continue
+                        for e in f.out[b]:
+                            r = e.rel()
+                            if not (r and is_var(r[0], v) and r[1] in ('>', '>=') and isinstance(const_of(r[2]), int) and _ret0_block(f, e.dst)):
+                                continue
+                            cont = [x.dst for x in f.out[b] if x is not e]
+                            if s.bid not in f.reach(cont, cut_blocks=writers - {s.bid}):
+                                continue
+                            cmax = const_of(r[2]) - (1 if r[1] == '>=' else 0)
+                            n += 1
+                            R.ob(rule, cmax == width, P.relloc(f.blocks[b]['term'].get('loc')) if f.blocks[b].get('term', {}).get('loc') else f,
+                                 'in %s a parsed prefix length is refused exactly above %d, the width of the %d-byte address it fills (refused above %d)' % (f.name, width, psz, cmax),
+                                 key='reach:prefix:%s' % f.name)
+        # -- residue ---------------------------------------------------------------------------------
+        if 'residue' in parts:
+            ins = [p for p in f.param_info if p.get('t', '').startswith('const') and 'inaddr' in p.get('t', '')]
+            cnt = [p['name'] for p in f.param_info if p.get('t') in ('unsigned int', 'unsigned', 'int')]
+            if len(ins) == 2 and cnt:
+                an = an or numeric.Analysis(f)
+                for o in numeric.obligations(an):
+                    if o['kind'] == 'shift' and '>>' in o['expr'] and any(c in o['expr'] for c in cnt):
+                        n += 1
+                        R.ob(rule, o['hi'] is not None and o['hi'] >= 15, site_of(P, f, o['where']),
+                             'the partial-group comparison of %s covers a residue of a single bit: shift count range [%s, %s] reaches 15' % (f.name, o['lo'], o['hi']), key='reach:residue:%s' % f.name)
+    return n
+
+
 def run(P, R, tier):
     fns = scope(P)
     if len(fns) < 3:
@@ -258,5 +398,9 @@ def run(P, R, tier):
     prefix_offsets(P, R)
     prefix_width(P, R)
     hex_table(P, R)
+    full_range(P, R, fns)
+    helper_cursor(P, R, fns)
+    R.floor('C13.CUR.2', 1, 'the dotted-quad helper called on a saved start')
+    R.floor('C13.TAB.4', 4, 'full-range acceptance: embedded copy, two prefix bounds, mask residue')
     R.floor('C13.CUR.1', 2, 'the parser and its helper scan the input with an index cursor')
     return EXPLANATION, ASSUMPTIONS, {'functions_analysed': [f.name for f in fns], 'subscripts': n_idx, 'block_copies': n_cp, 'shifts': n_sh, 'cursors': n}
